@@ -74,6 +74,16 @@ pub fn run_op(line: &str) -> String {
         "suit_cmp" => ord_str(suit_of(n(0)).cmp(&suit_of(n(1)))).to_string(),
         "card_cmp" => ord_str(card_of(n(0)).cmp(&card_of(n(1)))).to_string(),
         "u64_of_card" => format!("{}", u64::from(card_of(n(0)))),
+        // C13: each card -> its bit -> back to itself, and no other card shares the bit
+        "card_bits_rt" => {
+            let c = card_of(n(0));
+            let bits = u64::from(c);
+            let shared = (0..52).filter(|d| *d != n(0) && u64::from(card_of(*d)) == bits).count();
+            match guarded(|| Card::from(bits)) {
+                Some(back) => format!("ok {} distinct={}", card_code(&back), (shared == 0) as u8),
+                None => "panic".to_string(),
+            }
+        }
         "card_of_u64" => {
             let v: u64 = a[0].parse().unwrap();
             match guarded(|| Card::from(v)) {
